@@ -45,8 +45,10 @@ from __future__ import annotations
 
 import copy
 import datetime as _dt
+import enum
 import hashlib
 import itertools
+import traceback
 from fractions import Fraction
 
 from mc import common, explore, vclock
@@ -232,6 +234,65 @@ def judged_inspect(ref, fp, anergic, call, just_trained=False):
         ref.mem.add((fp.vocabulary_hash, fp.structure_hash))
     info = (lvl, act, getattr(resp.signal1, "value", "?"), sig, len(resp.violations), bool(resp.is_anergic))
     return resp, v, (info, out, bd, second)
+
+
+# ------------------------------------------------------------------------------------------------
+# canonical key of a watcher: the WHOLE object, not a hand-picked list of fields
+# ------------------------------------------------------------------------------------------------
+
+def _all_thresholds(obj, depth=0):
+    """Every integer stored under a name ending in 'threshold' anywhere in the object graph."""
+    found = []
+    d = getattr(obj, "__dict__", None)
+    if d is None or depth > 4:
+        return found
+    for name, v in d.items():
+        if isinstance(v, int) and not isinstance(v, bool) and name.endswith("threshold"):
+            found.append(v)
+        elif hasattr(v, "__dict__") and not isinstance(v, type):
+            found += _all_thresholds(v, depth + 1)
+    return found
+
+
+_PLAIN = (str, float, bool, type(None))
+
+
+def _finger(v, cap, name=""):
+    """Recursive fingerprint of a value: every instance field of every object reachable from it (`name` = the field
+    the value sits in).  Subtracted, each with its argument: (1) counters (`*_count`) are capped at `cap`, the largest
+    threshold stored ANYWHERE in the object (so every comparison of a counter with a stored threshold keeps its
+    answer, also with a threshold the unchanged code never compares it with); (2) the free-text violation log of the
+    activation state (no code path reads it) is kept as its length up to 3, the number the statement's severity split
+    can depend on; (3) timestamps."""
+    t = type(v)
+    if t in _PLAIN:
+        return v
+    if t is int:
+        return min(v, cap) if name.endswith("_count") else v
+    if isinstance(v, enum.Enum):
+        return v.value
+    if t is tuple or t is list:
+        if name == "signal1_violations":
+            return ("log", min(len(v), 3))
+        return tuple([_finger(x, cap, name) for x in v])
+    if t is set or t is frozenset:
+        return ("set",) + tuple(sorted([_finger(x, cap, name) for x in v], key=repr))
+    if t is dict:
+        return ("dict",) + tuple(sorted([(repr(k), _finger(x, cap, name)) for k, x in v.items()]))
+    if isinstance(v, _dt.datetime):
+        return "<time>"
+    d = getattr(v, "__dict__", None)
+    if d is not None:
+        return (t.__name__,) + tuple([(k, _finger(d[k], cap, k)) for k in sorted(d)])
+    return repr(v)
+
+
+def watcher_key(tc):
+    """Canonical form of a TCell: all of its fields (configuration, counters, flag, the live baseline object and the
+    whole ActivationState), see _finger for what is subtracted."""
+    if tc is None:
+        return None
+    return _finger(tc, max([0] + _all_thresholds(tc)))
 
 
 # ------------------------------------------------------------------------------------------------
@@ -425,18 +486,23 @@ class TModel:
     """Histories over inspect(fingerprint class) / flag_manually / reset / reset_without_confirmation on one TCell:
     both resets (and the flag) are enabled in every state, so they are applied after a SUSPICIOUS answer, after a
     CONFIRMED one by each kind of second signal, after CRITICAL, while flagged, and on the way to anergy.  The
-    reference streak / flag / dismissed false alarms are updated from the calls alone; the canonical state (counters
-    capped at the configured thresholds) only decides which histories are merged and is validated differentially by
-    the explorer.  Root = (profile, thresholds, sibling): with sibling=1 a second TCell built on the SAME profile
+    reference streak / flag / dismissed false alarms are updated from the calls alone; the canonical state (every field
+    of the watcher, of its live baseline object and of its ActivationState — see watcher_key — plus the reference's
+    own counters) only decides which histories are merged and is validated differentially by the explorer.  Root = (profile, thresholds, sibling): with sibling=1 a second TCell built on the SAME profile
     object has been flagged, driven past its anomaly threshold and desensitised before the history starts; nothing
     of that may reach the watcher under test, which is judged as the fresh watcher it is."""
 
     def __init__(self, tier):
         self.tier = tier
-        self.pis = T_PROFILES[tier]
+        self.pis = list(T_PROFILES[tier])
+
+    usable = None       # set by _usable_roots: the roots whose construction did not raise
+
+    def all_roots(self):
+        return [[pi, rt, at, sib] for pi in self.pis for rt, at in T_THRS[self.tier] for sib in (0, 1)]
 
     def roots(self):
-        return [[pi, rt, at, sib] for pi in self.pis for rt, at in T_THRS[self.tier] for sib in (0, 1)]
+        return self.all_roots() if self.usable is None else self.usable
 
     def build(self, root):
         pi, rt, at = root[:3]
@@ -466,13 +532,8 @@ class TModel:
         return [("inspect", fpv) for fpv in fp_classes(st.pi, self.tier)] + [("flag",), ("reset",), ("rwc",)]
 
     def canon(self, st):
-        tc = st.tc
-        rt = tc.repeated_anomaly_threshold
-        p = tc.profile      # the live baseline (the reference judges against its own copy of the original)
-        live = (p.output_length_bounds, p.response_time_bounds, p.confidence_bounds, p.error_rate_max,
-                tuple(sorted(p.valid_vocabulary_hashes)), tuple(sorted(p.valid_structure_hashes)), p.canary_accuracy_min)
-        return (min(tc.anomaly_count, rt), min(tc.anergy_count, tc.anergy_threshold), bool(tc.manual_flag),
-                tc.state.signal1.value, tc.state.signal2.value, rt, tc.anergy_threshold, live, st.ref.canon())
+        # the whole watcher (every field of the TCell, its live baseline and its ActivationState) + the reference
+        return (watcher_key(st.tc), st.ref.canon())
 
     def observe(self, st):
         return st.last_obs
@@ -857,8 +918,13 @@ class AModel:
         self.cmax = 1 if tier == "quick" else 2
         self.rules = ["always-critical"] if tier == "quick" else ["always-critical", "recent-confirmed"]
 
-    def roots(self):
+    usable = None       # set by _usable_roots: the roots whose construction did not raise
+
+    def all_roots(self):
         return [list(map(list, self.roots_table[k])) for k in self.roots_table]
+
+    def roots(self):
+        return self.all_roots() if self.usable is None else self.usable
 
     @staticmethod
     def _mk_system(cfg):
@@ -931,9 +997,7 @@ class AModel:
                                        tuple(sorted(p.valid_vocabulary_hashes)), tuple(sorted(p.valid_structure_hashes)),
                                        p.canary_accuracy_min)
         tc = imm.tcells.get(aid)
-        t = None if tc is None else (min(tc.anomaly_count, tc.repeated_anomaly_threshold), min(tc.anergy_count, tc.anergy_threshold),
-                                     bool(tc.manual_flag), tc.state.signal1.value, tc.state.signal2.value,
-                                     tc.repeated_anomaly_threshold, tc.anergy_threshold)
+        t = watcher_key(tc)     # every field of the watcher, its own baseline object and ActivationState
         r = imm.treg.get_record(aid)
         rec = (min(r.clean_inspections, imm.treg.stability_threshold), r.recent_update, tuple(sorted(r.tolerated_violations)))
         return (slot, win, can, prof, t, rec, ref.canon())
@@ -1080,12 +1144,56 @@ def _pmap(ctx, fn, jobs):
     return res, order
 
 
+_NO_SEARCH = {"states": 0, "transitions": 0, "depth_completed": 0, "fixpoint": False, "capped": False, "roots": 0,
+              "frontier_left": 0}
+
+
+def _guard(ctx, label, fn, default):
+    """Run one engine.  Whatever stops it short of a verdict (a worker crash, a harness inconsistency, an exception
+    of the tree under test inside harness code) is deferred: the other engines still run and report, and the run
+    ends as a harness error only if nothing was reported at all."""
+    try:
+        return fn()
+    except common.HarnessError as e:
+        ctx.defer_harness_error(f"engine {label}: {e}")
+    except Exception as e:  # noqa: BLE001
+        ctx.defer_harness_error(f"engine {label} stopped with {type(e).__name__}: {e}\n{traceback.format_exc()[-1500:]}")
+    return default
+
+
+def _usable_roots(ctx, model, label):
+    """Build every root once before the search.  A constructor of the tree under test that raises on one of the
+    explored configurations does not stop the explorer: the statement says nothing about which configurations a
+    constructor accepts, so this is no verdict but a deferred harness error (the configuration cannot be explored),
+    and the search goes on from the remaining roots."""
+    good = []
+    for root in model.all_roots():
+        try:
+            model.build(root)
+            good.append(root)
+        except common.HarnessError:
+            raise
+        except Exception as e:  # noqa: BLE001
+            ctx.defer_harness_error(f"engine {label}: configuration {root} cannot be built on this tree: {type(e).__name__}: {e}")
+    model.usable = good
+    return good
+
+
 def run(ctx):
     tier = ctx.tier
 
+    # the baselines of the bare-watcher engines; one that cannot be built is dropped (deferred), not a crash
+    for pi, spec in enumerate(PROFILE_SPECS):
+        try:
+            mk_profile(spec)
+        except Exception as e:  # noqa: BLE001
+            ctx.defer_harness_error(f"baseline profile {pi} cannot be built on this tree: {type(e).__name__}: {e}")
+            for table in (D_PROFILES, T_PROFILES):
+                table[tier] = [i for i in table[tier] if i != pi]
+
     # ---- D-tcell
-    jobs = _tcell_jobs(tier)
-    res, order = _pmap(ctx, _tcell_work, jobs)
+    jobs = _guard(ctx, "D-tcell", lambda: _tcell_jobs(tier), [])
+    res, order = _guard(ctx, "D-tcell", lambda: _pmap(ctx, _tcell_work, jobs), ([], []))
     _merge(ctx, res, order)
     classes = set()
     for r in res:
@@ -1093,21 +1201,30 @@ def run(ctx):
         for k in ("cases", "inspections", "nontrivial", "boundary", "boundary_inside"):
             ctx.stats[f"D-tcell.{k}"] += r[k]
     ctx.stats["D-tcell.reference_classes"] = len(classes)
-    ctx.sample({"engine": "D-tcell", "profile": PROFILE_SPECS[0], "thr": (3, 2), "anergy": 0, "streak": 2, "flag": 1,
-                "fp": fp_space(mk_profile(PROFILE_SPECS[0]), tier)[ctx.seed % 97]})
+    if D_PROFILES[tier]:
+        pi0 = D_PROFILES[tier][0]
+        ctx.sample({"engine": "D-tcell", "profile": PROFILE_SPECS[pi0], "thr": (3, 2), "anergy": 0, "streak": 2, "flag": 1,
+                    "fp": fp_space(mk_profile(PROFILE_SPECS[pi0]), tier)[ctx.seed % 97]})
 
     # ---- T (bare TCell histories, to the fixpoint)
     tmodel = TModel(tier)
-    for pi in tmodel.pis:
-        fp_classes(pi, tier)            # computed once here, inherited by the forked workers
-    t = explore.explore(tmodel, ctx, 64, label="T", validate_canon=100 if tier == "quick" else 400, max_states=200000)
-    if not t["fixpoint"] and not ctx.violation_count and not ctx.known_hits:
-        # (a tree on which the watcher's configuration drifts has already been reported above; the search cannot close there)
-        raise common.HarnessError(f"TCell history search did not close within depth 64 / 200000 states: {t}")
+    vc = 100 if tier == "quick" else 400
+
+    def t_search():
+        for pi in tmodel.pis:
+            fp_classes(pi, tier)            # computed once here, inherited by the forked workers
+        _usable_roots(ctx, tmodel, "T")
+        return explore.explore(tmodel, ctx, 64, label="T", validate_canon=vc, max_states=200000)
+
+    t = _guard(ctx, "T", t_search, dict(_NO_SEARCH))
+    if not t["fixpoint"]:
+        # a changed tree can keep the watcher's state drifting (the search cannot close there): whatever was found on
+        # the way has been reported; the open search only matters if the whole run reports nothing
+        ctx.defer_harness_error(f"TCell history search did not close within depth 64 / 200000 states: {t}")
 
     # ---- D-treg
     jobs = _treg_jobs(tier)
-    res, order = _pmap(ctx, _treg_work, jobs)
+    res, order = _guard(ctx, "D-treg", lambda: _pmap(ctx, _treg_work, jobs), ([], []))
     _merge(ctx, res, order)
     for r in res:
         for k in ("cases", "changed", "multi", "replayed", "differs"):
@@ -1117,7 +1234,7 @@ def run(ctx):
 
     # ---- D-train
     jobs = _train_jobs(tier)
-    res, order = _pmap(ctx, _train_work, jobs)
+    res, order = _guard(ctx, "D-train", lambda: _pmap(ctx, _train_work, jobs), ([], []))
     _merge(ctx, res, order)
     trained = set()
     for r in res:
@@ -1130,16 +1247,33 @@ def run(ctx):
     # ---- A
     model = AModel(tier)
     xmodel = XModel(tier)
-    for name, prefix in list(ROOTS.items()) + list(X_ROOTS.items()):      # root prefixes are judged once, like any other history
-        head = [list(prefix[0])] if prefix and prefix[0][0] == "cfg" else []
-        body = prefix[len(head):]
-        st = model.build(head)
-        for i, op in enumerate(body):
-            for key, what in model.step(st, op):
-                ctx.report(key, f"root prefix {name}: after {body[:i]} op {op}: {what}", {"root": head, "hist": body[:i], "op": op})
+    def prefixes():
+        for name, prefix in list(ROOTS.items()) + list(X_ROOTS.items()):      # root prefixes are judged once, like any other history
+            head = [list(prefix[0])] if prefix and prefix[0][0] == "cfg" else []
+            body = prefix[len(head):]
+            try:
+                st = model.build(head)
+            except common.HarnessError:
+                raise
+            except Exception:  # noqa: BLE001  (deferred by _usable_roots below)
+                continue
+            for i, op in enumerate(body):
+                for key, what in model.step(st, op):
+                    ctx.report(key, f"root prefix {name}: after {body[:i]} op {op}: {what}", {"root": head, "hist": body[:i], "op": op})
+
+    _guard(ctx, "A (root prefixes)", prefixes, None)
     depth = 5 if tier == "quick" else 6
-    a = explore.explore(model, ctx, depth, validate_canon=100 if tier == "quick" else 400)
-    x = explore.explore(xmodel, ctx, 4 if tier == "quick" else 5, label="X", validate_canon=100 if tier == "quick" else 400)
+
+    def a_search():
+        _usable_roots(ctx, model, "A")
+        return explore.explore(model, ctx, depth, validate_canon=vc)
+
+    def x_search():
+        _usable_roots(ctx, xmodel, "X")
+        return explore.explore(xmodel, ctx, 4 if tier == "quick" else 5, label="X", validate_canon=vc)
+
+    a = _guard(ctx, "A", a_search, dict(_NO_SEARCH))
+    x = _guard(ctx, "X", x_search, dict(_NO_SEARCH))
 
     d_exec = ctx.stats["D-tcell.cases"] + ctx.stats["D-treg.cases"] + ctx.stats["D-treg.replayed"] // len(PAIRS) + ctx.stats["D-train.cases"]
     d_eval = ctx.stats["D-tcell.inspections"] + ctx.stats["D-treg.cases"] + ctx.stats["D-treg.replayed"] + ctx.stats["D-train.positive"]
@@ -1224,6 +1358,9 @@ def run(ctx):
         "tolerance 0), observation alphabet of 4-5 kinds, <=2 canary results, TCell default thresholds 3/5 "
         "(anergy reached through root prefixes built from public operations); engine X: the other agent / system only "
         "records slow observations, is inspected and flagged during the search (everything else through root prefixes)",
+        "canonical key of a watcher (engines T, A, X) = recursive fingerprint of all its instance fields incl. the live baseline "
+        "and the ActivationState; counters capped at the largest threshold stored anywhere in the watcher, the free-text "
+        "violation log kept as its length (<= 3)",
         "not explored: ImmuneMemory.prune_old / import_signatures (they only remove or inject remembered threats; every clause "
         "is one-directional, forgetting cannot violate it), TCell constructed with non-zero counters or a preset flag "
         "(the same states are reached through public calls), silence caused by another agent's state (silence never violates)",
